@@ -259,6 +259,39 @@ func ruleWorkspaceApplies(c *Ctx) {
 						}
 					}
 				}
+				// ... also inside the function that parses it: no return of that function hands back the nil tree under a
+				// condition on the text ("an empty text has no journal") - the update path reads a nil tree as "the file
+				// is gone" and removes a member that a rebuild lists (C12-m31)
+				if cal.Blocks != nil {
+					treeIdx := -1
+					for i := 0; i < cal.Signature.Results().Len(); i++ {
+						if typeHasSuffix(cal.Signature.Results().At(i).Type(), "ast.Journal") {
+							treeIdx = i
+						}
+					}
+					var textPrm *ssa.Parameter
+					for i, a := range call.Call.Args {
+						if p, ok := stripConv(a).(*ssa.Parameter); ok && p.Parent() == f && types.TypeString(p.Type(), nil) == "string" && isTextArgOf(call, p) && i < len(cal.Params) {
+							textPrm = cal.Params[i]
+						}
+					}
+					if treeIdx >= 0 && textPrm != nil {
+						for _, rb := range cal.Blocks {
+							r, ok := lastInstr(rb).(*ssa.Return)
+							if !ok || treeIdx >= len(r.Results) {
+								continue
+							}
+							if k, isK := r.Results[treeIdx].(*ssa.Const); !isK || !k.IsNil() {
+								continue
+							}
+							for _, cc := range append(controlCondsPol(rb), controlDeps(rb)...) {
+								if backSlice(cc.Cond)[ssa.Value(textPrm)] {
+									textDep = c.P.pos(cc.Cond.Pos()) + " (a nil tree returned by " + funcName(cal) + " for some texts)"
+								}
+							}
+						}
+					}
+				}
 				c.check(textDep == "", "C12-APPLY", funcName(f), "a handed text is parsed whatever it says", ins.Pos(),
 					"no condition on the way to the parse depends on the text",
 					"whether the handed text is parsed and applied depends on the text itself (condition at "+textDep+": a checksum or equality memo): the memo describes what was handed in last, not what the workspace holds - after the file was reloaded by another route the same text is skipped although the tree differs")
